@@ -306,6 +306,8 @@ def refract(n, nprime, S, r):
         Sprime, a length 3 vector containing the exitant direction cosines
 
     """
+    # at least 2D turns (3,) -> (1,3), a single ray is a batch of one (see reflect)
+    S, r = np.atleast_2d(S, r)
     # the vector form of Snell's law below is written for the unit normal;
     # r is the surface gradient (-Fx, -Fy, 1), of length >= 1
     r = r / np.sqrt(_multi_dot(r, r))[:, np.newaxis]
